@@ -132,13 +132,20 @@ def _per_substance(text, contents, where, extra=None):
             continue
         actual = by_base({s: a})
         found = False
-        for m in re.finditer(re.escape(' of ' + s.name), text):
+        mentions = []
+        for m in re.finditer(re.escape(' of ' + s.name) + r'(?![\w])', text):
             head = text[:m.start()]
             toks = tokens(head)
             if toks and toks[-1][3] == len(head):
-                if token_matches(toks[-1], actual, 0.0):
-                    found = True
-                    break
+                mentions.append(toks[-1])
+        if len(mentions) == 1:
+            found = token_matches(mentions[0], actual, 0.0)
+        elif len(mentions) > 1 and len({t_[2] for t_ in mentions}) == 1:
+            # several amounts "of" the same substance are portions: a reader adds them up
+            b_ = mentions[0][2]
+            total_ = sum(t_[0] * R.PREFIX[t_[1]] for t_ in mentions)
+            slack_ = sum((0.5 * 10.0 ** (-R.cfg().precision(t_[1] + t_[2])) + 1e-9 * abs(t_[0])) * R.PREFIX[t_[1]] for t_ in mentions)
+            found = abs(total_ - actual.get(b_, 0.0)) <= slack_ + R.K * R.cfg().q * len(mentions) + 1e-12 * abs(actual.get(b_, 0.0))
         if not found:
             bad = (s.name, actual)
     M.bucket(f'C19/{where}/' + ('ok' if not bad else 'bad'))
